@@ -195,8 +195,14 @@ Section PollLoop.
 
   Definition events_empty (s : pstate) : bool := match events s with [] => true | _ => false end.
 
+  (* a Wake event waits in the events queue: poll then neither sleeps in select nor waits for the
+     other side to drain the output (every other event is returned only after the output has
+     been flushed, or at the timeout: the flush-first contract of poll) *)
+  Definition wake_queued (s : pstate) : bool :=
+    existsb (fun e => match e with EvWake => true | _ => false end) (events s).
+
   (* the body of one iteration after the delay has been computed; `nodelay` = select(None), which
-     is only used when no event is queued (otherwise the delay is zero).  The result of a
+     is only used when no Wake event is queued (otherwise the delay is zero).  The result of a
      completed iteration carries whether the write step sent at least one byte (`sent_some`). *)
   Definition round_body (s : pstate) (r : round_env) (nodelay : bool)
     : (pres * pstate) + (pstate * bool) (* inl = poll is over; inr = next iteration *) :=
@@ -207,7 +213,7 @@ Section PollLoop.
     let sig_ready := sigpipe s0 in
     let wk_ready := 0 <? pipe s0 in
     let in_ready := (match inq s0 with [] => false | _ => true end) || hup s0 in
-    if negb (writable || sig_ready || wk_ready || in_ready) && nodelay && events_empty s then inl (PBlocked, s0)
+    if negb (writable || sig_ready || wk_ready || in_ready) && nodelay && negb (wake_queued s) then inl (PBlocked, s0)
     else
       match write_step s0 r writable with
       | inr e => inl (PErr e, s0)
@@ -233,9 +239,9 @@ Section PollLoop.
             match round_body s r (negb finite) with
             | inl (res, s') => (res, s', rest)
             | inr (s', sent_some) =>
-                (* an event is ready and the tty took no output in this iteration (not writable, or
-                   writable and the write was refused) *)
-                if negb (events_empty s') && negb sent_some then (pop_ret s', rest)
+                (* a Wake event is queued and the tty took no output in this iteration (not writable,
+                   or writable and the write was refused) *)
+                if wake_queued s' && negb sent_some then (pop_ret s', rest)
                 else poll_loop finite false s' rest
             end
       end.
@@ -255,7 +261,7 @@ Section PollLoop.
   Fixpoint dispose_loop (fuel : nat) (s : pstate) (sched : list round_env)
     : option (pstate * list round_env) :=
     match fuel with
-    | O => None
+    | O => Some (s, sched)                  (* the overall deadline of the wait *)
     | S f =>
         match poll true s sched with
         | (PRet (Some (EvInput t)), s', rest) =>
